@@ -66,6 +66,7 @@ def cases(tier, seed):
                     add('inv', cfg, kp)
             for _ in range(6):
                 add('div', cfg, rng.choice(S[1:]), kb=list(rng.choice(S[1:])))
+            add('div', cfg, [], kb=list(rng.choice(S[1:])))          # empty numerator: 0 / b
             add('pow', cfg, rng.choice(S[1:]))
     S3 = pat.SUB(3)
     for p, q, r in pat.pqr_all(3):
